@@ -36,6 +36,13 @@ def cases(tier, rng):
     for _ in range(40 if tier == "quick" else 1000):
         ty = rng.choice(list(TY))
         yield {"k": "hist", "ty": ty, "prog": rand_hex(rng, TY[ty][1]), "nets": rng.sample(NETS, 4)}
+    # one string decoded under several networks in one process (a decision must not be remembered across networks)
+    for _ in range(60 if tier == "quick" else 2000):
+        ty = rng.choice(list(TY)); ver, ln = TY[ty]; net = rng.choice(NETS)
+        s_ = refbech32.encode(HRP[net], ver, bytes(rng.getrandbits(8) for _ in range(ln)))
+        order = [rng.choice(NETS) for _ in range(rng.randrange(2, 5))]
+        if net not in order: order.insert(rng.randrange(len(order) + 1), net)
+        yield {"k": "dhist", "ty": ty, "s": s_, "nets": order}
     n = 1500 if tier == "quick" else 60000
     for j in range(n):
         net = rng.choice(NETS); ty = rng.choice(list(TY)); ver, ln = TY[ty]
@@ -134,6 +141,12 @@ def impl(d):
             setup(net)
             out.append(_cls(d["ty"])(witness_program=d["prog"]).to_string())
         return "|".join(out)
+    if k == "dhist":
+        out = []
+        for net in d["nets"]:
+            setup(net)
+            out.append(guarded(lambda: _cls(d["ty"])(address=d["s"]).to_witness_program()))
+        return "|".join(out)
     if k == "dec":
         setup(d["net"])
         a = _cls(d["ty"])(address=d["s"])   # acceptance is the constructor returning
@@ -153,6 +166,8 @@ def model(d):
         return [sx("seg_to_string_txt", d["ty"], net, bytes.fromhex(d["prog"])) for net in d["nets"]]
     if k == "dec":
         return sx("seg_from_string", d["ty"], d["net"], Raw("x" + d["s"].encode().hex()))
+    if k == "dhist":
+        return [sx("seg_from_string", d["ty"], net, Raw("x" + d["s"].encode().hex())) for net in d["nets"]]
     if k == "pred":
         return sx("is_bech32", Raw("x" + d["s"].encode().hex()))
 
@@ -164,6 +179,12 @@ def oracle(d):
         return s + "|" + d["prog"] + "|" + d["prog"] + "|" + s + "|1"
     if k == "hist":
         return "|".join(refbech32.encode(HRP[n], TY[d["ty"]][0], bytes.fromhex(d["prog"])) for n in d["nets"])
+    if k == "dhist":
+        out = []
+        for net in d["nets"]:
+            r = refbech32.decode(HRP[net], d["s"])
+            out.append("ERR" if (r is None or r[0] != TY[d["ty"]][0]) else r[1].hex())
+        return "|".join(out)
     if k == "dec":
         r = refbech32.decode(HRP[d["net"]], d["s"])
         if r is None or r[0] != TY[d["ty"]][0]: return "ERR"
